@@ -9,6 +9,8 @@
 (*                                      yields price p (read from the state) *)
 (*  {"a":"Quiet"}  (-> MarkNoPrice)     a market event without price or      *)
 (*                                      without open position                *)
+(*  {"a":"Persist"} (-> Persist)        the state was serialised and         *)
+(*                                      deserialised                         *)
 (*  every line: "post" = the projected position after the call, "exit" =    *)
 (*  the PositionExited the call returned, all amounts in integer milli-units *)
 (*  (rounded), compared within one milli-unit (DESIGN 5.5).                  *)
@@ -123,9 +125,18 @@ TQuiet == /\ ~skip /\ Rec[l].a = "Quiet"
                      IsOpen(pos) => Rec[l].post.unreal = lu)
           /\ lu' = Rec[l].post.unreal
 
+\* the state was stored and restored: accepted only as the stutter Persist - the restored position
+\* is the logged one before (every field, the fill ids included), nothing is emitted
+TPersist == /\ ~skip /\ Rec[l].a = "Persist"
+            /\ Persist                                                     \* the spec's own action
+            /\ UNCHANGED xreal
+            /\ Verdict(BookNear(pos', Rec[l].post) /\ Rec[l].exit.side = "none",
+                       IsOpen(pos) => Rec[l].post.unreal = lu)
+            /\ lu' = Rec[l].post.unreal
+
 TNext == /\ l <= Len(Rec)
          /\ l' = l + 1
-         /\ (TReset \/ TSkip \/ TFill \/ TMark \/ TQuiet)
+         /\ (TReset \/ TSkip \/ TFill \/ TMark \/ TQuiet \/ TPersist)
 
 TSpec == TInit /\ [][TNext]_tvars
 
